@@ -66,6 +66,11 @@ def _group_key(hname, v):
 
 def run_property(prop_id, tier, seed=0):
     t0 = time.time()
+    from engine import selftest
+    st = selftest.proxies() + selftest.fake_redis()
+    if st:
+        print("  harness self-test failed (proxy arithmetic / fake Redis replies): " + str(st[:3]), file=sys.stderr)
+        return 3
     mod = load(prop_id)
     harnesses = [h for h in mod.HARNESSES if tier in h.tiers]
     ev = {
